@@ -240,7 +240,13 @@ def numba_newton_raphson(
                 iterates[2],
             )
 
-        if (absolute_difference < atol) & (relative_difference < rtol):
+        # An Aitken extrapolation that happens to be short says nothing about the
+        # distance to the root; only a regular (Newton, secant or bisection) step does.
+        if (
+            (not aitken_step)
+            & (absolute_difference < atol)
+            & (relative_difference < rtol)
+        ):
             break
 
     else:
